@@ -130,6 +130,14 @@ func cmdMerge(args []string) {
 		if s.Watchdog {
 			watchdogs++
 		}
+		if s.Lane == "racesim" {
+			race["controlled_runs"] += s.Evals
+			race["controlled_steps"] += s.Steps
+			race["reports"] += int64(len(s.Violations))
+			viols = append(viols, s.Violations...)
+			premise = append(premise, s.Premise...)
+			continue
+		}
 		if s.Lane == "race" {
 			race["workloads"] += s.Evals
 			race["reports"] += int64(len(s.Violations))
@@ -249,21 +257,21 @@ func cmdMerge(args []string) {
 		rph = float64(runs) / maxWall * 3600
 	}
 	cov := map[string]interface{}{
-		"evaluations":         evals,
-		"distinct_nontrivial": nDistinct,
-		"nontrivial_runs":     nontriv,
-		"rule":                meta.rule,
-		"samples":             samples,
-		"exhaustive":          false,
-		"simulated_runs":      runs,
-		"runs_per_hour":       int64(rph),
-		"seeds":               []uint64{*seed},
-		"logical_steps":       steps,
-		"simulated_time_note": "openacid/slim has no clock, timer or deadline; simulated time is reported as logical steps (yields executed under the simulator)",
-		"faults_fired":        faults,
-		"probes":              probes,
-		"strategies":          strategies,
-		"sources":             sources,
+		"evaluations":                 evals,
+		"distinct_nontrivial":         nDistinct,
+		"nontrivial_runs":             nontriv,
+		"rule":                        meta.rule,
+		"samples":                     samples,
+		"exhaustive":                  false,
+		"simulated_runs":              runs,
+		"runs_per_hour":               int64(rph),
+		"seeds":                       []uint64{*seed},
+		"logical_steps":               steps,
+		"simulated_time_note":         "openacid/slim has no clock, timer or deadline; simulated time is reported as logical steps (yields executed under the simulator)",
+		"faults_fired":                faults,
+		"probes":                      probes,
+		"strategies":                  strategies,
+		"sources":                     sources,
 		"distinct_schedules_or_cases": nDistinct,
 		"distinct_groups":             len(groups),
 		"preemption_site_pairs":       len(pairs) - sweepSites,
@@ -286,7 +294,7 @@ func cmdMerge(args []string) {
 	}
 	if len(race) > 0 {
 		cov["race_lane"] = race
-		cov["race_lane_note"] = "workloads are a function of the seed, the schedule is NOT controlled: this lane is monitoring, kept because a race report is a happens-before fact"
+		cov["race_lane_note"] = "controlled_runs: the same kind of simulated scenarios executed under the seeded scheduler in a -race build whose harness is NOT race-instrumented and passes the baton through a plain variable (no happens-before edges between tasks): a report is deterministic and replayable. workloads: free-running goroutines, schedule NOT controlled (monitoring), kept for truly parallel execution."
 	}
 	ev := map[string]interface{}{
 		"property_id": *prop,
@@ -308,7 +316,7 @@ func cmdMerge(args []string) {
 	fmt.Printf("%s %s seed=%d: %d runs, %d evaluations, %d distinct non-trivial, %d logical steps, %.0f runs/hour, wall %.1fs\n",
 		*prop, *tier, *seed, runs, evals, nDistinct, steps, rph, *wall)
 	if len(race) > 0 {
-		fmt.Printf("  race lane: %d workloads, %d reports\n", race["workloads"], race["reports"])
+		fmt.Printf("  race lanes: %d controlled runs + %d free-running workloads, %d reports\n", race["controlled_runs"], race["workloads"], race["reports"])
 	}
 	keys := make([]string, 0, len(faults))
 	for k := range faults {
